@@ -56,6 +56,34 @@ def _pairs():
             and e[1] != '_default_']
 
 
+def _decodes():
+    """What the library REPORTS for a code found in a file: every code of every ENUM table pushed through the library's own
+    Enum adapter (the construct the struct sets are built from).  (table, reported name, code, all names the table has for the code)"""
+    import importlib
+    from elftools.construct import Enum, ULInt64
+    out = []
+    for modname in ('elftools.elf.enums', 'elftools.dwarf.enums'):
+        mod = importlib.import_module(modname)
+        for tab in sorted(dir(mod)):
+            d = getattr(mod, tab)
+            if not (tab.startswith('ENUM_') and isinstance(d, dict)) or tab == 'ENUM_D_TAG':
+                continue            # ENUM_D_TAG merges every machine / OS overlay (name -> value use only); files are decoded with per-file tables (C09)
+            pairs = {k: v for k, v in d.items() if isinstance(k, str) and k != '_default_' and isinstance(v, int) and not isinstance(v, bool) and 0 <= v < 2 ** 64}
+            if not pairs:
+                continue
+            try:
+                dec = Enum(ULInt64('x'), **dict(d))
+            except Exception:
+                continue
+            bycode = {}
+            for k, v in pairs.items():
+                bycode.setdefault(v, []).append(k)
+            for code, names in sorted(bycode.items()):
+                got = dec.parse(code.to_bytes(8, 'little'))
+                out.append((modname.split('.', 1)[1] + '.' + tab, got if isinstance(got, str) else '#%r' % (got,), code, sorted(names)))
+    return out
+
+
 # Library names that are spelled differently from the registry's name for the same constant.
 # (vocabulary mapping only: the value always comes from the registry.)
 def _registry_name(table, name):
@@ -79,7 +107,11 @@ def _undigs(d):
 
 def check(run):
     pairs = _pairs()
-    events = [{'table': t, 'name': _registry_name(t, n), 'value': _digs(v), 'kind': k, 'family': _family(t)} for t, n, v, k in pairs]
+    events = [{'table': t, 'name': _registry_name(t, n), 'value': _digs(v), 'kind': k, 'family': _family(t), 'aliases': []} for t, n, v, k in pairs]
+    decs = _decodes()
+    events += [{'table': t, 'name': n, 'value': _digs(v), 'kind': 'dec', 'family': '', 'aliases': al} for t, n, v, al in decs]
+    run.extra['decode_events'] = len(decs)
+    run.extra['decode_events_aliased'] = sum(1 for d in decs if len(d[3]) > 1)
     trace = run.trace_file('registry', events)
     res = run.tlc('RegistryTrace', 'RegistryTrace', env={'TRACE': trace}, workers=1)
     verdicts = list(run.cases(res.out))
